@@ -222,6 +222,22 @@ def r18_c(ctx):
             for node, msg in problems:
                 rr.fail(Finding('R18.c', 'data', fd.qual, node, 'TexArgs.%s: %s -- the call raises after the list has '
                                 'already changed' % (op, msg), line=getattr(node, 'lineno', 0)))
+    # the coercion hands the caller's string to the group parser as it is (the parser rejects mismatched delimiters)
+    co = [m_ for m_ in cls.methods if 'coerce' in m_]
+    for m_ in co:
+        fd = cls.methods[m_][-1]
+        p_ = fd.params()[1] if len(fd.params()) > 1 else None
+        parses = [n for n in ast.walk(fd.node) if isinstance(n, ast.Call) and isinstance(n.func, ast.Attribute) and n.func.attr == 'parse']
+        rebound = [n for n in ast.walk(fd.node) if isinstance(n, ast.Name) and n.id == p_ and isinstance(n.ctx, ast.Store)
+                   and not (isinstance(getattr(n, '_parent', None), ast.Assign) and n._parent.value in parses)]
+        for c in parses:
+            ok = len(c.args) == 1 and isinstance(c.args[0], ast.Name) and c.args[0].id == p_ and not rebound
+            rr.ob(ok, {'coercion': norm(c)[:50], 'string_rewritten_first': bool(rebound)})
+            if not ok:
+                site = rebound[0]._parent if rebound and hasattr(rebound[0], '_parent') else c
+                rr.fail(Finding('R18.c', 'data', fd.qual, site, 'TexArgs.%s rewrites the string before it reaches the group parser '
+                                '(%s): a string with mismatched delimiters can be turned into one the parser accepts, so it '
+                                'is added instead of rejected' % (m_.lstrip('_'), norm(site)[:50]), line=getattr(site, 'lineno', 0)))
     # coercion happens first in insert/remove
     for op in ('insert', 'remove'):
         fds = cls.methods.get(op)
